@@ -85,6 +85,13 @@ CHECKS = {
             "operators, left-to-right short circuit) says True; a raising predicate must yield a ConditionFailedError with cause, a false one without; the accepted value is the inner "
             "conversion's; into_data ignores conditions. Each condition object sees the whole grid in sequence, so stateful predicates are exposed.",
             "Grid values and shapes are fixed lists; numpy semantics are taken from numpy itself."),
+    'C14': ("exhaustive enumeration of generated class programs x all subsets of supplied fields x construction path on the real classes; path-differential oracle; bounded mutate/construct histories",
+            "Every class made of 1-2 (thorough 1-3) fields from 16 field kinds x layouts x hooks is generated as a real pane class; for all subsets of supplied fields and plain / "
+            "convertible / ill-kinded arguments every construction path (keyword, positional, mapping data, sequence data, make_unchecked) is run: paths must agree, arguments convert "
+            "exactly like from_data on the field type (same value or same error tree), defaults are equal, exactly typed, fresh products never shared between instances, the set-field "
+            "record equals the supplied names, make_unchecked is verbatim, the hook runs once per instance and fails as ConvertError-with-cause on data paths; all ordered pairs of "
+            "paths are run as construct / mutate-default / construct histories.",
+            "Field kinds and argument values are fixed lists; classes pane refuses at creation are skipped."),
     'C19': ("exhaustive enumeration of value pool x sink kind x source kind x the full formatting-option cube on the real IO functions under a non-UTF-8 locale, with pane.io.open recorded; "
             "bounded multi-document write histories",
             "Every pooled typed value is written and read back through every sink/source kind pairing and every one of the 8 JSON and 1 152 YAML option settings (quick: full cube on "
